@@ -193,7 +193,8 @@ EvObjs(x) == SelectSeq(x.objs, LAMBDA o : o.ev)
 MatchObj(st, o, live) ==
     LET cands == SelectSeq(live, LAMBDA ev :
                     /\ ev.id \notin st.used /\ ev.ty = o.ty /\ ev.ix = o.ix
-                    /\ ev.val = o.val /\ ev.fl = o.fl
+                    /\ ev.val = o.val
+                    /\ (o.fl = -1 \/ o.fl = ev.fl)      \* fields the variation does not carry
                     /\ (o.tm = "" \/ o.tm = ev.tm))
     IN IF cands = <<>> THEN [st EXCEPT !.bad = @ + 1]
        ELSE [st EXCEPT !.ids = Append(@, cands[1].id), !.used = @ \cup {cands[1].id}]
